@@ -21,18 +21,19 @@ Proved for all states:
 * `emit_only_through_header_line`: in the current Go source every write to `dst` after the start
   line is a call of `appendHeaderLine` or the final CRLF (so a new raw `append` breaks this proof).
 
-The start line is outside the property's list (method and request-URI are not header APIs):
-hypothesis `NoCRLF` on it.
+The request line: since /repo 910b0dd method and request URI go through `appendRequestLinePart` (SP, CR, LF percent-encoded),
+so it is free of CR/LF for EVERY state (`HW.startLine_clean`) and `request_head_lines` needs no hypothesis any more.  The response
+status line (`consts.StatusLine`) stays a hypothesis `NoCRLF`.
 -/
 namespace Hertz.Props.C05
 open Hertz Hertz.HW Hertz.Gen.Str Hertz.Spec.Head
 
 def NoCRLF (b : Bytes) : Prop := ∀ x ∈ b, x ≠ 13 ∧ x ≠ 10
 
-theorem request_head_lines (r : ReqHdr) (rest : Bytes) (h : NoCRLF r.startLine) :
+theorem request_head_lines (r : ReqHdr) (rest : Bytes) :
     parseHead (r.bytes ++ rest) = some (r.startLine, kept r.fields, rest) := by
   unfold ReqHdr.bytes
-  have := parseHead_block r.startLine r.fields rest h
+  have := parseHead_block r.startLine r.fields rest (startLine_clean r)
   simpa [List.append_assoc] using this
 
 theorem response_head_lines (r : RespHdr) (rest : Bytes) (h : NoCRLF r.statusLine) :
@@ -58,12 +59,14 @@ open Hertz.Gen.Emit in
 /-- In the Go source as it is now, the only raw writes are the start line and the closing CRLF. -/
 theorem emit_only_through_header_line :
     requestHeader.filter (fun i => match i with | .line _ _ => false | _ => true) =
-      [.raw "h.Method()", .raw "' '", .raw "h.RequestURI()", .raw "' '", .raw "bytestr.StrHTTP11", .raw "bytestr.StrCRLF",
-       .raw "bytestr.StrCRLF"] ∧
+      [.call "appendRequestLinePart", .raw "' '", .call "appendRequestLinePart", .raw "' '", .raw "bytestr.StrHTTP11",
+       .raw "bytestr.StrCRLF", .raw "bytestr.StrCRLF"] ∧
     responseHeader.filter (fun i => match i with | .line _ _ => false | _ => true) =
       [.raw "consts.StatusLine(statusCode)", .raw "bytestr.StrCRLF"] ∧
     trailer.filter (fun i => match i with | .line _ _ => false | _ => true) = [.raw "bytestr.StrCRLF"] ∧
-    Gen.Emit.headerLine = [.raw "key", .raw "bytestr.StrColonSpace", .raw "newlineToSpace(value)", .raw "bytestr.StrCRLF"] := by
+    Gen.Emit.headerLine = [.raw "key", .raw "bytestr.StrColonSpace", .raw "newlineToSpace(value)", .raw "bytestr.StrCRLF"] ∧
+    -- /repo 910b0dd: method and request target go through `appendRequestLinePart`, which writes the clean prefix, `%XX`, or the byte
+    Gen.Emit.requestLinePart = [.raw "part[:i]", .raw "'%', upperhex[c>>4], upperhex[c&15]", .raw "c"] := by
   decide
 
 /-- non-vacuity: `SetCookie("a", "b\r\nX: 1")`-like state: one Cookie line, CR/LF neutralised. -/
@@ -82,8 +85,8 @@ state; a program is a list of calls on the zero object.  The check replays every
 compares the state after EVERY call and the final bytes.
 
 TODO-OPEN (kept as per-case checks in `Driver/C05Api.lean`): an `expectedFields` that
-does not go through the state machine (a second, list-of-fields semantics of the calls); `URI.Parse` never producing CR/LF in
-`PathOriginal`/`queryString` (so that through `Request.SetRequestURI` alone no line break reaches the request line).
+does not go through the state machine (a second, list-of-fields semantics of the calls).  (The request line is closed since
+/repo 910b0dd: `request_line_single` holds for every input.)
 -/
 open Hertz.HA
 
@@ -92,9 +95,9 @@ instance (b : Bytes) : Decidable (NoCRLF b) := inferInstanceAs (Decidable (∀ x
 /-- For EVERY program of request-header API calls with arbitrary byte arguments: the serialised head, read by the strict
 line splitter, is exactly one start line plus one line per field of `expectedReqFields program`, then `rest` untouched.
 (The start line itself: `request_line_single_*` below.) -/
-theorem api_program_head_lines (p : List ReqCall) (rest : Bytes) (h : NoCRLF (reqStartLine p)) :
+theorem api_program_head_lines (p : List ReqCall) (rest : Bytes) :
     parseHead (reqWire p ++ rest) = some (reqStartLine p, expectedReqFields p, rest) :=
-  request_head_lines _ rest h
+  request_head_lines _ rest
 
 /-- the same for every program of response-header / `RequestContext` calls; `sl` = `consts.StatusLine`, `date` = the server date -/
 theorem api_program_head_lines_resp (sl : Int → Bytes) (date : Bytes) (p : List RespCall) (rest : Bytes)
@@ -145,43 +148,47 @@ theorem request_line_only_from_setters (p : List ReqCall) :
     ((runReq p).uri = [] ∨ ReqCall.setRequestURI (runReq p).uri ∈ p) :=
   ⟨rfl, runReqFrom_line p p {} (fun _ h => h) (Or.inl rfl) (Or.inl rfl)⟩
 
-/-- FALSE as stated for every input: `SetMethod("GET /x HTTP/1.1\r\nX:")` puts a line break into the request line
-(genuine defect, known finding `start-line-raw`) … -/
-theorem request_line_single_fails_at :
-    ¬ NoCRLF (reqStartLine [.setMethod [71, 69, 84, 32, 47, 120, 32, 72, 84, 84, 80, 47, 49, 46, 49, 13, 10, 88, 58]]) := by
-  decide
-
-/-- … and so does `SetRequestURI("/a\r\nX: 1")` -/
-theorem request_line_single_fails_at_uri :
-    ¬ NoCRLF (reqStartLine [.setRequestURI [47, 97, 13, 10, 88, 58, 32, 49]]) := by
-  decide
-
-/-- the request line has exactly two SP and no CR/LF when the last `SetMethod` / `SetRequestURI` arguments have no SP, CR, LF -/
-theorem request_line_single_partial (p : List ReqCall) (hm : Clean3 (runReq p).method) (hu : Clean3 (runReq p).uri) :
+/-- FULL strength (since /repo 910b0dd): for every program - every method and request-URI bytes - the request line has
+exactly two SP and no CR/LF -/
+theorem request_line_single (p : List ReqCall) :
     (reqStartLine p).count 32 = 2 ∧ NoCRLF (reqStartLine p) :=
-  requestLine_single hm hu
+  requestLine_single _ _
 
-/-- EXACTLY these inputs: the line is well formed iff both arguments are free of SP, CR, LF -/
-theorem request_line_single_exactly (p : List ReqCall) :
-    ((reqStartLine p).count 32 = 2 ∧ NoCRLF (reqStartLine p)) ↔ (Clean3 (runReq p).method ∧ Clean3 (runReq p).uri) :=
-  ⟨requestLine_single_conv, fun h => requestLine_single h.1 h.2⟩
-
-/-- `req.Write` takes the target from `URI.RequestURI()`.  FALSE for every URI state: `URI.SetQueryString("a\r\nb")` … -/
-theorem request_target_fails_at :
-    ¬ Clean3 (Target.requestURI { path := [47, 97], queryString := [97, 13, 10, 98] }) := by
+/-- regression on the former witness `SetMethod("GET /x HTTP/1.1\r\nX:")` (was `request_line_single_fails_at`): one line,
+`GET%20/x%20HTTP/1.1%0D%0AX: / HTTP/1.1` -/
+theorem request_line_single_repaired :
+    reqStartLine [.setMethod [71, 69, 84, 32, 47, 120, 32, 72, 84, 84, 80, 47, 49, 46, 49, 13, 10, 88, 58]] =
+      [71, 69, 84, 37, 50, 48, 47, 120, 37, 50, 48, 72, 84, 84, 80, 47, 49, 46, 49, 37, 48, 68, 37, 48, 65, 88, 58,
+       32, 47, 32, 72, 84, 84, 80, 47, 49, 46, 49] := by
   decide +kernel
 
-/-- … the quoted path and the serialised query arguments never contain SP, CR, LF; the two parts copied verbatim are the
-only way in: `PathOriginal` under `DisablePathNormalizing`, the query string while `QueryArgs()` has not been used -/
+/-- regression on `SetRequestURI("/a\r\nX: 1")` (was `request_line_single_fails_at_uri`): `GET /a%0D%0AX:%201 HTTP/1.1` -/
+theorem request_line_single_repaired_uri :
+    reqStartLine [.setRequestURI [47, 97, 13, 10, 88, 58, 32, 49]] =
+      [71, 69, 84, 32, 47, 97, 37, 48, 68, 37, 48, 65, 88, 58, 37, 50, 48, 49, 32, 72, 84, 84, 80, 47, 49, 46, 49] := by
+  decide +kernel
+
+/-- what the repair changes, exactly: a part of the request line is written unchanged iff it has no SP, CR, LF (restatement
+of the former `request_line_single_exactly`); otherwise the three bytes appear as `%20`, `%0D`, `%0A` -/
+theorem request_line_part_unchanged_iff (part : Bytes) : reqLinePart part = part ↔ Clean3 part :=
+  reqLinePart_unchanged_iff part
+
+/-- `URI.RequestURI()` itself still copies two parts verbatim: the quoted path and the serialised query arguments never contain
+SP, CR, LF; `PathOriginal` under `DisablePathNormalizing` and the query string while `QueryArgs()` has not been used may -/
 theorem request_target_partial (u : Target) (hp : u.disablePathNormalizing = true → Clean3 u.pathOriginal)
     (hq : u.parsedQueryArgs = false → Clean3 u.queryString) : Clean3 u.requestURI :=
   target_clean3 u hp hq
 
-/-- the request line `req.Write` writes (method, `URI.RequestURI()`) -/
-theorem request_line_written_partial (m : Bytes) (u : Target) (hm : Clean3 m)
-    (hp : u.disablePathNormalizing = true → Clean3 u.pathOriginal) (hq : u.parsedQueryArgs = false → Clean3 u.queryString) :
+/-- … but the request line `req.Write` writes from it (method, `URI.RequestURI()`) is well formed for EVERY method and URI state -/
+theorem request_line_written (m : Bytes) (u : Target) :
     (requestLine m u.requestURI).count 32 = 2 ∧ NoCRLF (requestLine m u.requestURI) :=
-  requestLine_single hm (target_clean3 u hp hq)
+  requestLine_single _ _
+
+/-- regression on `URI.SetQueryString("a\r\nb")` (was `request_target_fails_at`): the line break is written `%0D%0A` -/
+theorem request_target_repaired :
+    requestLine [] (Target.requestURI { path := [47, 97], queryString := [97, 13, 10, 98] }) =
+      [71, 69, 84, 32, 47, 97, 63, 97, 37, 48, 68, 37, 48, 65, 98, 32, 72, 84, 84, 80, 47, 49, 46, 49] := by
+  decide +kernel
 
 /-- `Cookie.AppendBytes` with arbitrary key, value, domain, path, expiry and flags: the `Set-Cookie` line is ONE line of the
 strict splitter, its content the cookie bytes with CR/LF turned into SP -/
@@ -209,7 +216,7 @@ example : expectedRespFields (fun _ => [72]) [68] [.set [88, 13, 10, 89] [118], 
     [(strLocation, [47, 97, 32, 32, 88, 58, 32, 49])] := by
   decide +kernel
 
-example : (reqStartLine [.setMethod [80, 85, 84], .setRequestURI [47, 120]]).count 32 = 2 := by decide
+example : (reqStartLine [.setMethod [80, 85, 84], .setRequestURI [47, 120]]).count 32 = 2 := by decide +kernel
 
 /-- non-vacuity of the count bound: one call, two fields (the default Content-Type of a POST) -/
 example : (expectedReqFields [.setMethod [80, 79, 83, 84], .set [88] [49]]).length = 2 := by decide +kernel
